@@ -273,7 +273,8 @@ impl ExactSizeIterator for MoveGen {
     /// Give the exact length of this iterator
     fn len(&self) -> usize {
         let mut result = 0;
-        for i in 0..self.moves.len() {
+        // entries before `index` have already been consumed under the current mask
+        for i in self.index..self.moves.len() {
             if self.moves[i].bitboard & self.iterator_mask == EMPTY {
                 break;
             }
